@@ -414,8 +414,8 @@ fn exec_case(def: &CheckDef, tier: Tier, case: &Value) -> Outcome {
     let id = def.id;
     let out = run_forked(t, &|| exec(id, case));
     if let Outcome::Timeout = out {
-        // re-run once with 5x the budget so that machine load cannot fake a hang
-        return run_forked(t * 5, &|| exec(id, case));
+        // re-run once with 3x the budget so that machine load cannot fake a hang
+        return run_forked(t * 3, &|| exec(id, case));
     }
     out
 }
@@ -516,7 +516,7 @@ pub fn run_shard(
                 Class::Inconclusive(s) => {
                     out.inconclusive
                         .push(format!("{} case {}: {}", fam.name, hash_value(&case), s));
-                    if out.inconclusive.len() > 20 {
+                    if out.inconclusive.len() > 4 {
                         break 'fam;
                     }
                 }
